@@ -15,8 +15,10 @@ Strings cross the protocol as `=<percent-encoded UTF-8>` tokens; floats as IEEE 
                                                 -> panic | <#files> =<file>.. { | <content of the run's summary> }
 
 The variant (code as found / repaired code) is chosen by the driver's suite name:
-`naming` = `naming-fixed` (default) and `naming-current`; the environment variable
-VERIF_C12_VARIANT=current|fixed overrides the default of plain `naming`.
+`naming-anchored` (the round-3 repairs: label / Summary.Id / FileNameSafeId computed from the id's own ending),
+`naming` = `naming-fixed` (D6-D8 only) and `naming-current`; the environment variable
+VERIF_C12_VARIANT=current|fixed overrides the default of plain `naming`.  checkprops.py names the driver that
+matches what /repo's HEAD contains.
 -/
 namespace Driver.Naming
 open Crem.Naming Crem.SummaryCsv
@@ -59,8 +61,8 @@ def jsonTok (key : Str) : String :=
   | some s => pct s
   | none => "panic"
 
-def keyImage (key : Str) : String :=
-  s!"{pct (setIdOfKey key)} {pct (fileSafeIdOfKey key)} {jsonTok key}"
+def keyImage (v : Variant) (key : Str) : String :=
+  s!"{pct (setIdV v key)} {pct (fileSafeIdV v key)} {jsonTok key}"
 
 /-- lexicographic order by code point (= Go's bytewise order on UTF-8) -/
 def strLt : Str → Str → Bool
@@ -128,12 +130,14 @@ def pRun (vars : List Str) (ws : List String) : Option (RunIn × List String) :=
     pure ({ r := r, keyIdx := keyIdx, setIdx := setIdx, rows := rows }, ws)
   | _ => none
 
-def jsonContent (setName : Str) (rows : List Entry) : String :=
-  let rowStr (e : Entry) : String :=
-    s!" {pct e.label} {e.vars.length}" ++
-      String.join (e.vars.map fun nv => s!" {pct nv.1} {Driver.gridStr 3 (Crem.rnd 3 nv.2)}") ++
+/-- canonical rendering of the MODEL's JSON document (`Crem.SummaryCsv.JsonSummary`: what `json.Marshaler.Marshal`
+hands to encoding/json) - the harness renders the document it parsed back from the file the same way -/
+def jsonContent (doc : JsonSummary) : String :=
+  let rowStr (e : JsonSolution) : String :=
+    s!" {pct e.id} {e.variables.length}" ++
+      String.join (e.variables.map fun nv => s!" {pct nv.1} {Driver.gridStr 3 (Crem.rnd 3 nv.2)}") ++
       s!" {pct e.actions} {pct e.note}"
-  s!"{pct setName} {rows.length}" ++ String.join (rows.map rowStr)
+  s!"{pct doc.solutionSet} {doc.solutions.length}" ++ String.join (doc.solutions.map rowStr)
 
 def doSave (v : Variant) (f : Family) (ot : OutputType) (detail : Bool) (name : Str) (R : Nat) (runs : List RunIn) : String :=
   let perRun := runs.map fun run =>
@@ -148,7 +152,7 @@ def doSave (v : Variant) (f : Family) (ot : OutputType) (detail : Bool) (name : 
     | none => false
   if panics then "panic" else
   let files := perRun.flatMap fun (_, _, ks, key) =>
-    (match key with | some k => [summaryFileName ot k] | none => []) ++
+    (match key with | some k => [summaryFileNameV v ot k] | none => []) ++
     (if detail then ks.flatMap (detailFileNames ot) else [])
   let listing := sortDedup files
   let contents := perRun.map fun (run, rid, ks, key) =>
@@ -158,8 +162,8 @@ def doSave (v : Variant) (f : Family) (ot : OutputType) (detail : Bool) (name : 
       match ot with
       | .csv => pct (renderCsv entries entries.head?)
       | .json =>
-        match (run.setIdx.bind fun i => ks[i]?).bind jsonSetNameOfKey with
-        | some setName => jsonContent setName (sortedRows entries)
+        match (run.setIdx.bind fun i => ks[i]?).bind fun k => marshalJson entries (some k) with
+        | some doc => jsonContent doc
         | none => "missing"
     | _, _ => "missing"
   s!"{listing.length}" ++ String.join (listing.map fun x => " " ++ pct x) ++ String.join (contents.map fun x => " | " ++ x)
@@ -173,13 +177,13 @@ def step (v : Variant) (line : String) : String :=
     | none => bad
   | ["key", t] =>
     match unpct t with
-    | some key => keyImage key
+    | some key => keyImage v key
     | none => bad
   | ["names", fam, nameT, r, R, n] =>
     match famOf fam, unpct nameT, r.toNat?, R.toNat?, n.toNat? with
     | some f, some name, some r, some R, some n =>
       let ks := keys v f (runId name r R) n
-      s!"{ks.length}" ++ String.join (ks.map fun k => s!" | {pct k} {pct (label v k)} {keyImage k}")
+      s!"{ks.length}" ++ String.join (ks.map fun k => s!" | {pct k} {pct (label v k)} {keyImage v k}")
     | _, _, _, _, _ => bad
   | "csv" :: ws =>
     let res : Option String := do
